@@ -8,10 +8,10 @@ from cpverif.props import c04
 LEVEL = "exploration"
 RULE = (
     "sequences of 0-8 rows mixing accepted rows, rows with a rejected cell, rows with a wrong item count and duplicates "
-    "(cells from the C02 pools, classified by M-field) written one by one through cutplace.Writer bound to delimited and "
+    "(cells from the C02 pools, classified by M-field; Text cells of delimited data also with line breaks inside) written one by one (write_row, or write_rows with one row) through cutplace.Writer bound to delimited and "
     "fixed CIDs (a sixth of them named by the path of a CID file) with header 0-1, optional IsUnique and DistinctCount checks and every fixed line-delimiter setting. After "
     "every write_row the stream is inspected: it must have grown by exactly the encoding of the row iff M-writer accepts "
-    "the row; close() must fail iff the distinct-count model fails; the output is read back with cutplace.rows under a "
+    "the row; close() must fail iff the distinct-count model fails; the same rows handed in bulk to write_rows() of a second writer (continued after every rejection) must produce the same output and end verdict; the output is read back with cutplace.rows under a "
     "fresh CID and must be accepted completely and equal the written values (modulo fixed padding). A case is (CID, row "
     "sequence), distinct by digest, non-trivial with at least one accepted and one rejected row."
 )
@@ -64,6 +64,13 @@ def gen_case(rng, kind):
             for i, cell in enumerate(row):
                 if i < len(model.fields) and model.fields[i]["type"] == "Text" and rng.random() < 0.4:
                     row[i] = " " * rng.randint(1, 2) + cell
+    if kind == "delimited":
+        # values with line breaks inside: they are part of the value, whatever the declared line delimiter is
+        for row in data_rows:
+            for i, cell in enumerate(row):
+                if i < len(model.fields) and model.fields[i]["type"] == "Text" and rng.random() < 0.12:
+                    cut = rng.randint(0, len(cell))
+                    row[i] = cell[:cut] + rng.choice(["\r\n", "\n", "\r", "\n\r", "\r\n\r\n"]) + cell[cut:]
     if kind == "fixed":
         # callers may hand over values that are already (partly) padded with blanks: "ab" and "ab  " denote the same cell
         for row in data_rows:
@@ -89,13 +96,13 @@ def encode(model, row):
     return [text + {"lf": "\n", "cr": "\r", "crlf": "\r\n"}[ld]]
 
 
-def check_case(ctx, model, rows, cid_by_path=False):
+def check_case(ctx, model, rows, cid_by_path=False, one_by_one_through_write_rows=False):
     import os
 
     import cutplace
     from cutplace import errors
 
-    case = {"cid": model.to_json(), "rows": rows, "cid_by_path": cid_by_path}
+    case = {"cid": model.to_json(), "rows": rows, "cid_by_path": cid_by_path, "one_by_one_through_write_rows": one_by_one_through_write_rows}
     try:
         cid = gen.load_cid(model)
     except errors.InterfaceError as error:
@@ -144,7 +151,11 @@ def check_case(ctx, model, rows, cid_by_path=False):
             break
         outcome = None
         try:
-            writer.write_row(row)
+            if one_by_one_through_write_rows:
+                writer.write_rows([row])  # the other spelling of the same thing
+                ctx.count("writes.through-write_rows")
+            else:
+                writer.write_row(row)
             outcome = "written"
         except errors.DataError as error:
             outcome = error
@@ -212,6 +223,34 @@ def check_case(ctx, model, rows, cid_by_path=False):
     output = target.getvalue() if not target.closed else None
     if output is None:
         ctx.inconclusive_because("writer closed a stream it did not open")
+        return
+    # ---- the same rows handed over in bulk: write_rows() stops at a rejected row, and calling it again with what is
+    # left of the iterator carries on - the result has to be what row-by-row writing produced
+    bulk_target = io.StringIO(newline="")
+    bulk_end = None
+    try:
+        bulk_writer = cutplace.Writer(gen.load_cid(model), bulk_target)
+        remaining = iter(rows)
+        while True:
+            try:
+                bulk_writer.write_rows(remaining)
+                break
+            except errors.DataError:
+                ctx.count("bulk.continued-after-rejection")
+        try:
+            bulk_writer.close()
+        except errors.CheckError as error:
+            bulk_end = error
+    except Exception as error:
+        from cpverif import core
+
+        mod, fn = core.innermost_cutplace_frame(error)
+        ctx.violation("C14:bulk-crash:%s@%s.%s" % (type(error).__name__, mod, fn), case, "writing the rows with write_rows() failed with an internal error", observed=error)
+        return
+    ctx.count("bulk.judged")
+    if bulk_target.getvalue() != output or (bulk_end is not None) != (end_error is not None):
+        ctx.violation("C14:write_rows-differs-from-write_row", case, "writing the rows with write_rows() (continued after every rejection) does not produce what writing them one by one produces",
+                      expected={"output": output, "end": core_json(end_error)}, observed={"output": bulk_target.getvalue(), "end": core_json(bulk_end)})
         return
     back = []
     back_error = None
@@ -329,7 +368,7 @@ def run(ctx):
         rng = ctx.rng("case", i)
         kind = "delimited" if i % 2 == 0 else "fixed"
         model, rows = gen_case(rng, kind)
-        check_case(ctx, model, rows, cid_by_path=(i % 6 == 5))
+        check_case(ctx, model, rows, cid_by_path=(i % 6 == 5), one_by_one_through_write_rows=(i % 4 >= 2))
 
 
 def replay(ctx, case):
@@ -338,4 +377,4 @@ def replay(ctx, case):
         for i in range(90):
             encoding_refusals(ctx, i)
         return
-    check_case(ctx, RM.CidModel.from_json(case["cid"]), case["rows"], case.get("cid_by_path", False))
+    check_case(ctx, RM.CidModel.from_json(case["cid"]), case["rows"], case.get("cid_by_path", False), case.get("one_by_one_through_write_rows", False))
